@@ -21,6 +21,7 @@ DevInjectMfbo == CodeDeviations \cup {"InjectMfbo"}
 DevMclqIncl   == CodeDeviations \cup {"MclqIncl"}
 DevBmeshNotMop == CodeDeviations \cup {"BmeshNotMop"}
 DevNoTruncate  == CodeDeviations \cup {"NoTruncate"}
+DevBuilderDropsMamp == CodeDeviations \cup {"BuilderDropsMamp"}
 
 \* ---- strict invariants (do not consult Deviations): what the repaired code and the format satisfy
 \* no rebuilt file is longer than its predecessor (the first rebuild may shrink when the detected version
